@@ -164,6 +164,8 @@ Plan gen_nmt(Rng &r, bool thorough) {
         else if (c == 15) { p.ops.push_back(Op("p_trig")); if (r.chance(1, 2)) p.ops.push_back(Op("p_trig")); }
         else p.ops.push_back(Op("p_tick"));
     }
+    // a TPDO event deferred by the inhibit time, the state left before the window ends, ticks across its end
+    if (p.cfg["inh"] && r.chance(1, 3)) { p.ops.push_back(Op("nmt", {1, nid, 2})); p.ops.push_back(Op("p_trig")); p.ops.push_back(Op("p_trig")); if (r.chance(1, 3)) { p.ops.push_back(Op("p_tick")); p.ops.push_back(Op("p_trig")); } p.ops.push_back(r.chance(1, 4) ? Op("setmode", {r.pick<int64_t>({2, 4})}) : Op("nmt", {r.pick<int64_t>({2, 128, 2, 128, 130}), nid, 2})); int k = (int)r.range(1, 4); for (int i = 0; i < k; i++) p.ops.push_back(Op("p_tick")); if (r.chance(1, 2)) { p.ops.push_back(Op("nmt", {1, nid, 2})); p.ops.push_back(Op("p_tick")); } }
     return p;
 }
 Reg r09({"nmt", "C09", gen_nmt, [](const Plan &p, Cov &c, bool vb) { NmtRun x(p, c, vb); return x.run(); }, nullptr, nullptr});
